@@ -123,7 +123,42 @@ VCLAUSE(history_1d, 60000, 6000, 60000, "the sequence contains runs of >= 3 corr
 		int N	= (int) s.range(3, k == 0 ? nmax : std::min(nmax, 40));
 		T[k].x	= gen_abscissae(s, N, 6.0);
 		T[k].y	= gen_ordinates(s, N);
-		VMUST_RETURN("Interpolation constructor", T[k].pristine = Interpolation(T[k].x, T[k].y));
+		// built with or without unit factors, from lists or from the two-column table: whatever the construction, the object is the interpolant
+		// of the scaled table (T[k].x, T[k].y hold the scaled values from here on) and "freshly constructed" means the same for all of them
+		std::vector<double> rx = T[k].x, ry = T[k].y;
+		double xd = -1, fd = -1;
+		int ck = s.pick({5, 2, 2, 1});
+		if(ck == 1 || ck == 3)
+			xd = s.coin() ? std::ldexp(1.0, (int) s.range(-20, 20)) : std::pow(10.0, s.uniform(-6, 6));
+		if(ck == 2 || ck == 3)
+			fd = s.coin() ? std::ldexp(1.0, (int) s.range(-20, 20)) : std::pow(10.0, s.uniform(-6, 6));
+		bool mono = true;
+		for(int i = 0; i < N; i++)
+		{
+			if(xd > 0)
+				T[k].x[(size_t) i] = rx[(size_t) i] * xd;
+			if(fd > 0)
+				T[k].y[(size_t) i] = ry[(size_t) i] * fd;
+			if(i > 0 && !(T[k].x[(size_t) i] > T[k].x[(size_t) i - 1]))
+				mono = false;
+		}
+		if(!mono)
+		{
+			T[k].x = rx;
+			xd	   = -1;
+		}
+		if(xd > 0 || fd > 0)
+			c.cls("constructed_with_unit_factors");
+		if(s.coin())
+			VMUST_RETURN("Interpolation constructor", T[k].pristine = Interpolation(rx, ry, xd, fd));
+		else
+		{
+			std::vector<std::vector<double>> tab;
+			for(int i = 0; i < N; i++)
+				tab.push_back({rx[(size_t) i], ry[(size_t) i]});
+			c.cls("constructed_from_table");
+			VMUST_RETURN("Interpolation table constructor", T[k].pristine = Interpolation(tab, xd, fd));
+		}
 		VLOG(c, "table " << k << ": N=" << N << " x=" << show(T[k].x, 8) << " y=" << show(T[k].y, 8));
 	}
 	std::vector<Slot> slots(3);
@@ -132,7 +167,7 @@ VCLAUSE(history_1d, 60000, 6000, 60000, "the sequence contains runs of >= 3 corr
 		slots[k].tab = k == 2 ? 1 : 0;
 		// slot 0 is truly freshly constructed, the others are copies of the never-used object
 		if(k == 0)
-			VMUST_RETURN("Interpolation constructor", slots[k].obj = Interpolation(T[0].x, T[0].y));
+			VMUST_RETURN("Interpolation constructor", slots[k].obj = T[0].pristine);
 		else
 			slots[k].obj = T[slots[k].tab].pristine;
 	}
@@ -334,6 +369,11 @@ VCLAUSE(history_1d, 60000, 6000, 60000, "the sequence contains runs of >= 3 corr
 		else if(kind == 7)
 		{
 			double fac = s.pick({1, 1, 1}) == 0 ? s.sign() * std::ldexp(1.0, (int) s.range(-8, 8)) : s.sign() * std::pow(10.0, s.uniform(-4, 4));
+			if(s.chance(0.04))
+			{
+				fac = 0.0;	 // every output vanishes until the prefactor is set again
+				c.cls("prefactor_zero");
+			}
 			// outputs change by exactly the stated factor: compare a probe evaluation before and after
 			double xp = X[sl.pos] + 0.37 * (X[sl.pos + 1] - X[sl.pos]);
 			Interpolation before = sl.obj;
